@@ -24,7 +24,7 @@ ASSUMPTIONS = [
     "comment text avoids ~ [ ] $ (statement) and ':' outside fields; values start with a word",
     "metadata values are compared word for word (whitespace-normalised)",
     "programs contain no stop/skip/advance, so 'where the run ended' is the scan's last line or end of file",
-    "blank records inside CsvPath.unmatched are tolerated",
+    "blank records count as records read: they are expected in CsvPath.unmatched (as empty lists), as the statement's 'exactly the records read' says",
 ]
 WORDS = ["alpha", "beta", "v2", "draft", "ops-team", "x_1", "Checks", "the", "orders", "file", "2024", "Q3"]
 PUNCT = [",", ".", ";", "!", "?", "(", ")", "'", "/", "+", "*", "=", "&", "%", "@", "#", '"', "<", ">"]
@@ -65,6 +65,15 @@ def _case(draw):
         nrec = len(table["records"])
         ids = draw(st.lists(st.integers(0, nrec), min_size=1, max_size=4, unique=True))
         prog["comps"].append(["f", "in", [], [["h", "id"], ["t", "|".join(f"r{i}" for i in ids)]]])
+    if draw(st.sampled_from([False, False, True])):
+        # print() whose second argument is a function to run after printing
+        nrec = len(table["records"])
+        second = draw(st.sampled_from([
+            ["f", "push", [], [["t", "pp"], ["f", "line_number", [], []]]],
+            ["f", "stop", [], [["==", ["f", "line_number", [], []], ["t", draw(st.integers(1, nrec))]]]],
+        ]))
+        if second[1] != "stop":   # (a stop would end the run early: the complement relation assumes full scans)
+            prog["comps"].append(["f", "print", [], [["t", "note"], second]])
     if draw(st.integers(0, 3)) == 1:
         # lines passed over by advance()/skip() are scanned but not matched: they belong to 'no-matches'
         nrec = len(table["records"])
@@ -211,6 +220,11 @@ def run_case(case, sb):
         if Tl["stdout"] != "" or holder["lp"].lines_printed != len(T0["printouts"]) or Tl["printouts"] != T0["printouts"]:
             problems.append({"relation": "d: no-default with a LogPrinter attached", "csvpath": td, "stdout": Tl["stdout"],
                              "log_printer_lines": holder["lp"].lines_printed, "expected": len(T0["printouts"])})
+        # no printer at all: no-default may remove standard-out printing only, never a side effect
+        Tn = real.run_path(td, want_stdout=True, printer=False)
+        if Tn["stdout"] != "" or Tn["lines"] != T0["lines"] or Tn["variables"] != T0["variables"] or Tn["scan_count"] != T0["scan_count"]:
+            problems.append({"relation": "d: no-default without any other printer changes the run", "csvpath": td,
+                             "lines": Tn["lines"], "expected_lines": T0["lines"], "variables": Tn["variables"], "expected_variables": T0["variables"]})
         if Td["stdout"] != "" or Td["printouts"] != T0["printouts"]:
             problems.append({"relation": "d: no-default", "csvpath": td, "stdout": Td["stdout"], "printer": Td["printouts"], "expected_printer": T0["printouts"]})
         if Te["stdout"].split("\n")[:-1] != T0["printouts"] and Te["stdout"] != "".join(x + "\n" for x in T0["printouts"]):
@@ -226,8 +240,9 @@ def run_case(case, sb):
         # 'the records read' = everything up to the last record the run consumed
         end = Tu["_path"].line_monitor.physical_line_number
         end = -1 if end is None else end
-        read = [p for p in range(0, min(end, n - 1) + 1) if records[p]]
-        um = [u for u in (Tu["unmatched"] or []) if u]
+        # every record read, blank ones included (a blank record is never collected, so it is unmatched)
+        read = [p for p in range(0, min(end, n - 1) + 1)]
+        um = list(Tu["unmatched"] or [])
         pm = positions(records, read, Tu["lines"])
         pu = positions(records, read, um)
         if Tu["lines"] != T0["lines"] or pm is None or pu is None or set(pm) & set(pu) or sorted(pm + pu) != read:
